@@ -20,20 +20,28 @@ class Refused(Exception):
     pass
 
 
+class Exhausted(Refused):
+    """The step budget ran out: the interpreted fragment loops (far) longer than any of the checker's inputs can justify."""
+
+
 class Raised(Exception):
     """The interpreted fragment executed a ``raise`` statement (payload: the normalised exception expression)."""
 
 
 SAFE_BUILTINS = {
     "len": len, "range": range, "enumerate": enumerate, "str": str, "int": int, "list": list, "tuple": tuple, "sum": sum, "max": max, "min": min,
-    "dedent": textwrap.dedent, "zip": zip, "sorted": sorted, "repr": repr, "bool": bool, "abs": abs, "reversed": reversed,
+    "dedent": textwrap.dedent, "zip": zip, "sorted": sorted, "repr": repr, "bool": bool, "abs": abs, "reversed": reversed, "ord": ord, "chr": chr, "set": set, "frozenset": frozenset, "bytes": bytes, "bytearray": bytearray, "divmod": divmod,
 }
 SAFE_METHODS = {
-    str: {"join", "strip", "lstrip", "rstrip", "format", "startswith", "endswith", "split", "replace", "upper", "lower", "partition"},
-    int: {"bit_length"},
-    list: {"index", "count", "copy", "append", "extend", "insert"},
+    str: {"encode", "join", "strip", "lstrip", "rstrip", "format", "startswith", "endswith", "split", "replace", "upper", "lower", "partition"},
+    int: {"bit_length", "to_bytes"},
+    list: {"index", "count", "copy", "append", "extend", "insert", "pop"},
+    set: {"union", "intersection", "difference", "issubset", "issuperset", "copy"},
+    frozenset: {"union", "intersection", "difference", "issubset", "issuperset"},
     tuple: {"index", "count"},
     dict: {"get", "keys", "values", "items", "setdefault", "update"},
+    bytearray: {"append", "extend"},
+    bytes: {"hex", "startswith", "endswith", "decode", "join", "find", "index", "split", "partition"},
 }
 _BIN = {
     ast.Add: lambda a, b: a + b, ast.Sub: lambda a, b: a - b, ast.Mult: lambda a, b: a * b, ast.FloorDiv: lambda a, b: a // b,
@@ -90,13 +98,21 @@ class Evaluator:
         params = [x.arg for x in [*a.posonlyargs, *a.args]]
         env = dict(self.env)
         env.update(f.env)
-        if len(args) > len(params):
+        if len(args) > len(params) and a.vararg is None:
             raise Refused("too many arguments")
         bound = dict(zip(params, args))
+        if a.vararg is not None:
+            bound[a.vararg.arg] = tuple(args[len(params):])
+        extra_kw: dict[str, Any] = {}
         for k, v in kwargs.items():
             if k not in params and k not in [x.arg for x in a.kwonlyargs]:
-                raise Refused(f"unexpected keyword {k}")
+                if a.kwarg is None:
+                    raise Refused(f"unexpected keyword {k}")
+                extra_kw[k] = v
+                continue
             bound[k] = v
+        if a.kwarg is not None:
+            bound[a.kwarg.arg] = extra_kw
         ndef = len(a.defaults)
         for i, p in enumerate(params):
             if p not in bound:
@@ -116,7 +132,7 @@ class Evaluator:
     def _tick(self) -> None:
         self.steps -= 1
         if self.steps < 0:
-            raise Refused("evaluation budget exhausted")
+            raise Exhausted("evaluation budget exhausted")
 
     # ------------------------------------------------------------------ expressions
     def ev(self, e: ast.AST, env: dict[str, Any] | None = None) -> Any:
@@ -143,14 +159,14 @@ class Evaluator:
                         val = format(val, self.ev(v.format_spec, env))
                     out.append(str(val))
             return "".join(out)
-        if isinstance(e, (ast.Tuple, ast.List)):
+        if isinstance(e, (ast.Tuple, ast.List, ast.Set)):
             out = []
             for x in e.elts:
                 if isinstance(x, ast.Starred):
                     out.extend(self.ev(x.value, env))
                 else:
                     out.append(self.ev(x, env))
-            return tuple(out) if isinstance(e, ast.Tuple) else out
+            return tuple(out) if isinstance(e, ast.Tuple) else (set(out) if isinstance(e, ast.Set) else out)
         if isinstance(e, ast.Dict):
             return {self.ev(k, env): self.ev(v, env) for k, v in zip(e.keys, e.values)}
         if isinstance(e, ast.BinOp):
@@ -208,10 +224,18 @@ class Evaluator:
                 else:
                     args.append(self.ev(a, env))
             kwargs = {k.arg: self.ev(k.value, env) for k in e.keywords if k.arg}
+            for k in e.keywords:
+                if k.arg is None:
+                    more = self.ev(k.value, env)
+                    if not isinstance(more, dict):
+                        raise Refused("** of a non-dict")
+                    kwargs.update(more)
             if isinstance(f, UserFunc):
                 return self.call_user(f, args, kwargs)
             if isinstance(f, Host):
                 return f.fn(*args, **kwargs)
+            if isinstance(f, Sym) and isinstance(getattr(f, "call", None), Host):
+                return f.call.fn(*args, **kwargs)
             if isinstance(f, tuple) and f and f[0] == "symmethod":
                 m = f[1].methods[f[2]]
                 if isinstance(m, UserFunc):
@@ -303,6 +327,14 @@ class Evaluator:
                 for item in self.ev(st.iter, env):
                     self._tick()
                     self._bind(st.target, item, env)
+                    r = self.run(st.body, env)
+                    if r[0] == "return":
+                        return r
+                    if r[0] == "break":
+                        break
+            elif isinstance(st, ast.While) and not st.orelse:
+                while self.ev(st.test, env):
+                    self._tick()
                     r = self.run(st.body, env)
                     if r[0] == "return":
                         return r
